@@ -243,11 +243,15 @@ def run(ctx):  # noqa: C901, PLR0912, PLR0915
 
     g = cfg_of(ms)
     sc = [n for n in g.nodes if n.kind == 'return' and ('match_by == MatchBy.strcmp', True) in g.facts_at(n)]
-    ok = len(sc) == 1 and unparse(sc[0].stmt.value) == 'my_scope == other_scope'
+    ok = len(sc) == 1 and g.symbolic_text(sc[0], sc[0].stmt.value) in ('$0 == $1', '$1 == $0')
     ctx.ob('C14.R6', 'strcmp is exact', ok, 'string comparison matching is plain equality of the two scope strings', fi=ms)
-    last = ms.node.body[-1]
-    ctx.ob('C14.R6', 'unknown rule matches nothing', isinstance(last, ast.Return) and isinstance(last.value, ast.Constant)
-           and last.value.value is False, 'an unknown matching rule matches nothing', fi=ms)
+    # the returns that are reached when neither rule applies (all rule tests false) return False
+    rule_tests = [unparse(b.test) for b in g.nodes if b.kind == 'branch' and b.label is True and 'match_by' in unparse(b.test)]
+    fall = [n for n in g.nodes if n.kind == 'return' and rule_tests and
+            all((t, False) in g.facts_at(n) for t in set(rule_tests))]
+    ctx.ob('C14.R6', 'unknown rule matches nothing', bool(fall) and all(
+        g.symbolic_text(n, n.stmt.value) == 'False' for n in fall if n.stmt.value is not None) and
+        all(n.stmt.value is not None for n in fall), 'an unknown matching rule matches nothing', fi=ms)
     uri_rules = [n for n in walk_no_nested(ms.node) if isinstance(n, ast.If) and 'MatchBy.uri' in unparse(n.test)]
     ok = bool(uri_rules) and all(x in unparse(uri_rules[0].test) for x in ('MatchBy.uri', "''", 'None'))
     ctx.ob('C14.R6', 'default rule is rfc3986', ok, 'an absent MatchBy selects the RFC 3986 rule', fi=ms)
@@ -307,13 +311,34 @@ def _match_scope_symbolic(ms):  # noqa: C901, PLR0911, PLR0912
         from engine.errors import clone
         return R().visit(clone(e))
     g = cfg_of(ms)
+    _FIELDS = ('scheme', 'netloc', 'path', 'query', 'fragment')
+
+    class _SplitFields(ast.NodeTransformer):
+        # urlsplit(x)[i] / urlsplit(x)[:k][i]  ->  urlsplit(x).<field i>   (SplitResult is a named tuple: library fact)
+        def visit_Subscript(self, node):  # noqa: N802
+            self.generic_visit(node)
+            v = node.value
+            if isinstance(v, ast.Subscript) and isinstance(v.slice, ast.Slice) and v.slice.lower is None and v.slice.step is None:
+                v = v.value
+            if isinstance(v, ast.Call) and call_name(v) in ('urlsplit', 'urlparse') and isinstance(node.slice, ast.Constant) \
+                    and isinstance(node.slice.value, int) and 0 <= node.slice.value < len(_FIELDS):
+                return ast.copy_location(ast.Attribute(value=v, attr=_FIELDS[node.slice.value], ctx=ast.Load()), node)
+            return node
+
+    def sym(n, e):
+        return ast.fix_missing_locations(_SplitFields().visit(g.symbolic(n, e)))
     finals = []
+    pre_guards = []   # conjuncts in front of the all(...) inside one `a and b and all(...)` expression
     for n in g.nodes:
         if n.kind == 'return' and n.stmt.value is not None:
-            v = g.symbolic(n, n.stmt.value)
+            v = sym(n, n.stmt.value)
+            if isinstance(v, ast.BoolOp) and isinstance(v.op, ast.And) and isinstance(v.values[-1], ast.Call) and \
+                    call_name(v.values[-1]) == 'all':
+                pre_guards = list(v.values[:-1])
+                v = v.values[-1]
             if isinstance(v, ast.Call) and call_name(v) == 'all':
                 finals.append((n, v))
-    wit = {'returns': [f'{n.lineno}: {g.symbolic_text(n, n.stmt.value)[:160]}' for n in g.nodes
+    wit = {'returns': [f'{n.lineno}: {unparse(sym(n, n.stmt.value))[:160]}' for n in g.nodes
                        if n.kind == 'return' and n.stmt.value is not None]}
     if len(finals) != 1:
         return False, f'expected one `return all(...)` prefix comparison, found {len(finals)}', False, 'see R5', wit
@@ -372,7 +397,9 @@ def _match_scope_symbolic(ms):  # noqa: C901, PLR0911, PLR0912
     atoms = []
     for bnode in g.nodes:
         if bnode.kind == 'branch' and bnode.label in (True, False) and g.dominates(bnode, fn_):
-            _atoms(_alpha_parts(g.symbolic(bnode, bnode.test)), bnode.label, atoms)
+            _atoms(_alpha_parts(sym(bnode, bnode.test)), bnode.label, atoms)
+    for pg in pre_guards:
+        _atoms(_alpha_parts(pg), True, atoms)
     wit['guards of the prefix comparison'] = atoms
     have = set(atoms)
     la, lb = f'len({norm("$0")})', f'len({norm("$1")})'
@@ -388,7 +415,7 @@ def _match_scope_symbolic(ms):  # noqa: C901, PLR0911, PLR0912
     # every comparison between the operands treats them alike
     for bnode in g.nodes:
         if bnode.kind in ('test',) or (bnode.kind == 'branch' and bnode.label is True):
-            for c in ast.walk(g.symbolic(bnode, bnode.test)):
+            for c in ast.walk(sym(bnode, bnode.test)):
                 if isinstance(c, ast.Compare) and len(c.ops) == 1:
                     l, r = c.left, c.comparators[0]
                     names_l = {x.id for x in ast.walk(l) if isinstance(x, ast.Name)}
